@@ -431,7 +431,10 @@ def movie_case(draw):
     cfg = draw(U.method_config(p))
     cfg['remove_mean'] = False      # calc_rdm_movie has no such option
     tidx = draw(st.lists(st.integers(0, len(TIME_POOL) - 1), min_size=n_t, max_size=n_t, unique=True))
-    times = [TIME_POOL[i] for i in tidx]
+    # 'all time descriptors': also sample indices / millisecond stamps that are large compared
+    # with their spacing (exactly representable, so bin means stay exact)
+    t0 = draw(st.sampled_from([0.0, 0.0, 0.0, 250000.0, 2.0 ** 30]))
+    times = [t0 + TIME_POOL[i] for i in tidx]
     groups = U.groups_of(obs) if with_desc else [[i] for i in range(n)]
     frames = []
     kind = None
@@ -449,7 +452,7 @@ def movie_case(draw):
             if not b:
                 continue
             mean = sum(times[t] for t in b) / len(b)
-            if any(abs(mean - s) < 1e-6 for s in seen):
+            if any(mean == s for s in seen):
                 continue
             seen.append(mean)
             bins.append(b)
@@ -535,7 +538,8 @@ def classify_movie(case):
               'form:' + ('movie' if case['with_desc'] else 'movie-nodesc'),
               'bins:' + ('none' if case['bins'] is None else 'yes'),
               'frames:%d' % n_frames, 'desc:' + case['container'],
-              'times:' + ('sorted' if case['times'] == sorted(case['times']) else 'unsorted')]
+              'times:' + ('sorted' if case['times'] == sorted(case['times']) else 'unsorted'),
+              'time-origin:' + ('large' if max(abs(t) for t in case['times']) > 1000 else 'small')]
     if case['bins'] is not None and any(len(b) > 1 for b in case['bins']):
         labels.append('bins:averaging')
     return labels, n_frames >= 2 or _label_order_nontrivial(case['obs'])
